@@ -78,4 +78,11 @@ StrongSep ==
     it |-> <<" gatti neri dormono. ", " casa rossa chiusa. ">>,
     de |-> <<" katzen schlafen heute. ", " haus bleibt geschlossen. ">>,
     nl |-> <<" katten slapen vandaag. ", " huis blijft gesloten. ">> ]
+
+\* phrases around the ambiguous words (fr neuf with its articles, en o), used as parts of context cases (C10)
+AmbigParts ==
+  [ fr |-> <<"le vingt neuf", "du cent neuf", "un logement neuf", "le numéro neuf", "un chat neuf", "le neuf", "du neuf", "un neuf deux",
+             "le vingt neuf alors voilà bien", "l'appartement neuf", "du pain neuf dix", "le mille neuf cent">>,
+    en |-> <<"o one", "the o", "o", "twenty o", "o apples", "one o two">>,
+    es |-> <<"uno dos">>, pt |-> <<"um dois">>, it |-> <<"uno due">>, de |-> <<"eins zwei">>, nl |-> <<"een twee">> ]
 =============================================================================
